@@ -1301,11 +1301,37 @@ def check_conversion_typestate(prop: str, res: Result, repo: Repo):
         res.fail(rule, finding(prop, rule, ts or cv, (ts.node if ts else fn), "the tag setter no longer rejects a second conversion", construct="tag setter: raise"))
     scv = repo.method("hexital.core.candle", "Candle", "save_clean_values")
     rcv = repo.method("hexital.core.candle", "Candle", "recover_clean_values")
-    if "self.clean_values" in ast.unparse(scv.node) and "vars(self)" in ast.unparse(scv.node):
+    def _save_recover_by_evaluation():
+        """save_clean_values, overwrite the prices, recover_clean_values: the raw prices are back (True / False / None: undecided)"""
+        from . import convsem as cs
+
+        try:
+            it = cs.Interp(repo, "hexital.core.candle", "Candle")
+            raw = {"open": 1.0, "high": 2.0, "low": 0.5, "close": 1.5, "volume": 0, "timestamp": cs.Sym("ts", "datetime")}
+            o = cs.ObjV("candle", dict(raw, clean_values={}, indicators={"X": 3.0}, sub_indicators={}, _tag=None), "Candle")
+            it.call_function(it.method("save_clean_values"), [], {}, bound_first=o)
+            if not all(o.attrs.get("clean_values", {}).get(k) is v or o.attrs.get("clean_values", {}).get(k) == v for k, v in raw.items()):
+                return False
+            for k in ("open", "high", "low", "close"):
+                o.attrs[k] = 99.0
+            o.attrs["volume"] = 7
+            it.call_function(it.method("recover_clean_values"), [], {}, bound_first=o)
+            return all((o.attrs.get(k) is v) or (not isinstance(v, cs.Sym) and o.attrs.get(k) == v and type(o.attrs.get(k)) is type(v)) for k, v in raw.items())
+        except (cs.Undecided, cs.Raised, AttributeError, TypeError):
+            return None
+
+    _sr = _save_recover_by_evaluation()
+    if _sr is True:
+        res.ok(rule, {"site": scv.where, "why": "save_clean_values / recover_clean_values evaluated on a model candle: the raw prices (a volume of 0 included) come back"}, nontrivial="save-recover")
+    elif _sr is False:
+        res.fail(rule, finding(prop, rule, rcv, rcv.node, "save_clean_values followed by recover_clean_values does not bring the raw values back (evaluated on a model candle with a volume of 0)", construct="save/recover round trip"))
+    elif "self.clean_values" in ast.unparse(scv.node) and "vars(self)" in ast.unparse(scv.node):
         res.ok(rule, {"site": scv.where, "why": "raw values are copied into clean_values before conversion"})
     else:
         res.fail(rule, finding(prop, rule, scv, scv.node, "save_clean_values no longer snapshots the candle's values", construct="save_clean_values"))
-    if "self.clean_values.items()" in ast.unparse(rcv.node) and ("__setattr__" in ast.unparse(rcv.node) or "setattr" in ast.unparse(rcv.node)):
+    if _sr is not None:
+        pass
+    elif "self.clean_values.items()" in ast.unparse(rcv.node) and ("__setattr__" in ast.unparse(rcv.node) or "setattr" in ast.unparse(rcv.node)):
         res.ok(rule, {"site": rcv.where, "why": "raw values stay recoverable"})
     else:
         res.fail(rule, finding(prop, rule, rcv, rcv.node, "recover_clean_values no longer restores the saved raw values", construct="recover_clean_values"))
